@@ -223,6 +223,30 @@ def r1_2(ctx):
             )
         else:
             ctx.ok("R1.2", where(fi), "every non-UID path to the admission/flush passes `pending_expunges()` false")
+        # ... and again after the wait: while the command is queued behind another session's EXPUNGE / MOVE / CLOSE, that
+        # command's EXPUNGE lines are queued for this session and the message list shrinks.  What was tested before the wait
+        # says nothing about the moment the operation starts.
+        ops = {n.id for n in g.nodes if n.ast is not None and n.kind in ("stmt", "iter", "with_enter") and any(call_name(c) in ("fetch", "store", "search") and norm(call_recv(c)) == "self.mbox" for c in calls_in(n.ast))}
+        ctx.require(ops, f"{m}: the mailbox operation (self.mbox.fetch/store/search) not found")
+        late = None
+        for a in sorted(adm):
+            late = late or flow.feasible_paths_exist(
+                g, a, ops, _gate_classify, labels=flow.NORMAL,
+                accept=lambda n, f: f.get("pe") is not False and f.get("uid") is not True,
+            )
+            ctx.paths_explored += 1
+        if late:
+            path, facts = late
+            ctx.bad(
+                "R1.2", fi.module, fi.qual, f"{m}: pending_expunges() not tested after the admission wait",
+                "the EXPUNGE gate is tested only before the command waits for its turn: when it was queued behind another "
+                "session's EXPUNGE, a non-UID command runs with that EXPUNGE pending - its sequence numbers are interpreted against "
+                "the shrunken list (`FETCH 5` answers for the old message 6) and the queued `* n EXPUNGE` is sent while the "
+                "command is in progress",
+                g.nodes[path[-1]].line, flow.fmt_path(g, path),
+            )
+        else:
+            ctx.ok("R1.2", where(fi), "after the admission wait a non-UID command re-tests `pending_expunges()` before it touches the mailbox")
         # the refusal arm must raise No (tagged NO) or say BYE, not fall through
         # idling never raised in these handlers
         raised = [n for n in body_walk(fi.node) if isinstance(n, ast.Assign) and any(norm(t) == "self.idling" for t in n.targets) and not (isinstance(n.value, ast.Constant) and n.value.value is False)]
@@ -490,21 +514,23 @@ def r1_4(ctx):
     ctx.floor("R1.4", n, 4, "flush handlers")
     sp = p.func("client.BaseClientHandler.send_pending_notifications")
     ctx.analysed(sp)
-    pushes = [c for c in calls_in(sp.node) if is_push_call(c)]
-    in_order = any(any(isinstance(a, ast.Starred) and norm(a.value) == "self.pending_notifications" for a in c.args) for c in pushes)
-    resets = [s for s in body_walk(sp.node) if isinstance(s, ast.Assign) and any(norm(t) == "self.pending_notifications" for t in s.targets)]
-    clear_calls = [c for c in calls_in(sp.node) if call_name(c) == "clear" and norm(call_recv(c)) == "self.pending_notifications"]
+    # The flush hands the queue over atomically: it detaches the list (binds it to a local, gives the session a fresh empty
+    # one) and only then pushes the detached list, whole and in order.  push() suspends on a slow client; a line queued for the
+    # session during that suspension must land in the fresh list - emptying the queue *after* the push would wipe it.
+    from .common import pm_of
+    pms = pm_of(p, sp)
     reorder = [c for c in calls_in(sp.node) if call_name(c) in ("sort", "reverse", "sorted", "reversed", "set")]
-    if in_order and (resets or clear_calls) and not reorder:
-        # reset must come after the push
-        first_push = min(c.lineno for c in pushes)
-        rl = min([s.lineno for s in resets] + [c.lineno for c in clear_calls])
-        if rl > first_push:
-            ctx.ok("R1.4", where(sp), "flush pushes *pending_notifications in order, then empties the list")
-        else:
-            ctx.bad("R1.4", sp.module, sp.qual, "reset before push", "pending list emptied before it is pushed", sp.node.lineno)
+    detach_then_push = pms.has("while self.pending_notifications:\n    notifications = self.pending_notifications\n    self.pending_notifications = []\n    await self.client.push(*notifications)") or pms.has("while self.pending_notifications:\n    notifications, self.pending_notifications = (self.pending_notifications, [])\n    await self.client.push(*notifications)")
+    once = pms.has("if self.pending_notifications:\n    notifications = self.pending_notifications\n    self.pending_notifications = []\n    await self.client.push(*notifications)") or pms.has("notifications = self.pending_notifications\nself.pending_notifications = []\nif notifications:\n    await self.client.push(*notifications)")
+    push_then_reset = pms.has("await self.client.push(*self.pending_notifications)\nself.pending_notifications = []") or pms.has("await self.client.push(*self.pending_notifications)\nself.pending_notifications.clear()")
+    if detach_then_push and not reorder:
+        ctx.ok("R1.4", where(sp), "flush detaches the queue, then pushes the detached list whole and in order")
+    elif once and not reorder:
+        ctx.bad("R1.4", sp.module, sp.qual, "if self.pending_notifications: detach; push", "the flush detaches and pushes the queue once: lines queued during that push are still queued when it returns, and the callers that go on to push notifications directly (IDLE, EXPUNGE, MOVE raise `idling` right after the flush) send newer EXPUNGEs before those older ones - the session's replayed view removes the wrong messages", sp.node.lineno)
+    elif push_then_reset:
+        ctx.bad("R1.4", sp.module, sp.qual, "await push(*self.pending_notifications); self.pending_notifications = []", "the queue is emptied after the push that sends it: push() suspends on a slow client, and an EXPUNGE / EXISTS queued for the session during that suspension is wiped by the reset - the session never learns of it and its view stays different from the mailbox for good", sp.node.lineno)
     else:
-        ctx.bad("R1.4", sp.module, sp.qual, norm(sp.node.body[-1], 200), "send_pending_notifications no longer pushes the whole list in order and empties it", sp.node.lineno)
+        ctx.bad("R1.4", sp.module, sp.qual, norm(sp.node.body[-1], 200), "send_pending_notifications no longer detaches the queue and pushes the whole detached list in order", sp.node.lineno)
 
 
 IDLING_OWNERS = {
@@ -560,6 +586,41 @@ def r1_5(ctx):
             ctx.ok("R1.5", where(fi), f"self.idling = {val} on every normal path")
         else:
             ctx.bad("R1.5", fi.module, fi.qual, f"self.idling = {val}", what, fi.node.lineno, flow.fmt_path(g, w) if w else "")
+
+
+def r1_5b(ctx):
+    """`idling` switches the session from queued to direct delivery.  Direct lines must not overtake queued ones (an EXPUNGE
+    is positional: it is numbered after every earlier one).  So wherever `self.idling = True` is executed the queue has just
+    been flushed: every path to the assignment passes send_pending_notifications(), and no suspension point lies between the
+    last flush and the assignment (other sessions' commands run at every suspension point and queue new lines)."""
+    p = ctx.p
+    n = 0
+    for fi in p.funcs_in("client"):
+        sets = [s for s in body_walk(fi.node) if isinstance(s, ast.Assign) and any(norm(t) == "self.idling" for t in s.targets) and isinstance(s.value, ast.Constant) and s.value.value is True]
+        if not sets:
+            continue
+        ctx.analysed(fi)
+        g = ctx.cfg(fi)
+        flush = {x.id for x in g.nodes if x.ast is not None and x.kind == "stmt" and any(call_name(c) == "send_pending_notifications" for c in calls_in(x.ast))}
+        for s in sets:
+            n += 1
+            nid = [x for x in g.nodes_for(s) if g.nodes[x].kind == "stmt"]
+            ctx.require(nid, f"{fi.qual}: CFG node of `self.idling = True` not found")
+            unflushed = flow.escapes_without(g, g.entry, lambda x: x in flush, [nid[0]]) if flush else [g.entry, nid[0]]
+            late = None
+            if unflushed is None:
+                for w in [x.id for x in g.nodes if x.awaits and x.id not in flush]:
+                    if nid[0] in flow.reach(g, [w], flow.NORMAL, avoid=lambda x: x in flush):
+                        late = w
+                        break
+            ctx.paths_explored += 2
+            if unflushed is not None:
+                ctx.bad("R1.5", fi.module, fi.qual, "self.idling = True without a flush", f"{fi.name} starts pushing notifications directly while lines queued earlier for the session may still be in its queue: its own `* n EXPUNGE` overtakes an older one queued by another session's command, and the session's replayed view removes the wrong message", s.lineno, flow.fmt_path(g, unflushed))
+            elif late is not None:
+                ctx.bad("R1.5", fi.module, fi.qual, "suspension point between the flush and self.idling = True", f"{fi.name} suspends (`{norm(g.nodes[late].ast, 60)}`) after flushing the queue and before switching to direct delivery: a line queued during that suspension is overtaken by the directly pushed ones", s.lineno)
+            else:
+                ctx.ok("R1.5", where(fi), "direct delivery (`idling`) starts right after a flush, with no suspension point in between")
+    ctx.floor("R1.5b", n, 3, "places that raise `idling`")
 
 
 def r1_6(ctx):
@@ -648,6 +709,7 @@ def run(ctx):
     ctx.do(r1_3)
     ctx.do(r1_4)
     ctx.do(r1_5)
+    ctx.do(r1_5b)
     ctx.do(r1_6)
     ctx.do(r1_6b)
     ctx.do(r1_7)
